@@ -302,7 +302,7 @@ def shard_fixed(prop: str, tier: str, seed: int) -> dict[str, Any]:
     return c.export()
 
 
-def shard_pollers(prop: str, tier: str, seed: int, nmsg: int, nworkers: int, with_sweep: bool, P: int) -> dict[str, Any]:
+def shard_pollers(prop: str, tier: str, seed: int, nmsg: int, nworkers: int, with_sweep: bool, P: int, only: dict[int, int] | None = None) -> dict[str, Any]:
     """2-3 workers polling one table at the same time (plus the DLQ sweep / a lock heartbeat), all schedules with <= P pre-emptions."""
     from stabilize.queue.messages import StartWorkflow
 
@@ -368,8 +368,74 @@ def shard_pollers(prop: str, tier: str, seed: int, nmsg: int, nworkers: int, wit
                ["concurrent-pollers", "contended_polls", f"pollers:{nworkers}", "with-sweep" if with_sweep else "no-sweep"],
                sample={"messages": nmsg, "workers": nworkers, "preemptions": case["preemptions"], "delivered": {str(k): v for k, v in got.items()}} if pre and len(c.samples) < 2 else None)
 
-    n = explore(mk, progs, judge, max_preemptions=P)
+    n = explore(mk, progs, judge, max_preemptions=0 if only is not None else P, roots=[only] if only is not None else None)
     c.extra[f"schedules:pollers:{nmsg}m{nworkers}w{'s' if with_sweep else ''}"] = n
+    return c.export()
+
+
+def shard_movers(prop: str, tier: str, seed: int, scenario: str, P: int, only: dict[int, int] | None = None) -> dict[str, Any]:
+    """Concurrent movers between the queue and the DLQ: two sweeps, a sweep beside an explicit move_to_dlq, two replays
+    of one DLQ entry, a replay beside a sweep - all schedules with <= P pre-emptions; each marker must end in exactly one place."""
+    from stabilize.queue.messages import StartWorkflow
+
+    from vlib.engine_i import Sched, explore
+    from vlib.world import LONG_AGO
+
+    c = Campaign(prop, tier, seed, LEVEL)
+    holder: dict[str, Any] = {}
+    markers = ["OLD0", "OLD1", "LIVE", "DEAD"]
+
+    def mk() -> World:
+        w = World(share_connection=True)
+        for m in ("OLD0", "OLD1", "LIVE", "DEAD"):
+            w.queue.push(StartWorkflow(execution_id=m))
+        w._harness_sql("UPDATE queue_messages SET attempts = 10 WHERE payload LIKE '%\"OLD%'")
+        w._harness_sql("UPDATE queue_messages SET deliver_at = ?", (LONG_AGO,))
+        dead = w.scalar("SELECT id FROM queue_messages WHERE payload LIKE '%\"DEAD\"%'")
+        w.queue.move_to_dlq(dead, "setup")
+        holder["old0"] = w.scalar("SELECT id FROM queue_messages WHERE payload LIKE '%\"OLD0\"%'")
+        holder["dlq_id"] = w.scalar("SELECT id FROM queue_messages_dlq WHERE payload LIKE '%\"DEAD\"%'")
+        holder["ret"] = {}
+        return w
+
+    def sweeper(s: Sched, idx: int) -> None:
+        holder["ret"][idx] = s.w.queue.check_and_move_expired()
+
+    def mover(s: Sched, idx: int) -> None:
+        s.w.queue.move_to_dlq(holder["old0"], "explicit")
+
+    def replayer(s: Sched, idx: int) -> None:
+        holder["ret"][idx] = s.w.queue.replay_dlq(holder["dlq_id"])
+
+    programs = {"two-sweeps": [sweeper, sweeper], "sweep+move": [sweeper, mover], "two-replays": [replayer, replayer],
+                "replay+sweep": [replayer, sweeper], "three-sweeps": [sweeper, sweeper, sweeper]}[scenario]
+
+    def judge(w: World, s: Sched, pre: dict[int, int]) -> None:
+        case = {"kind": "movers", "scenario": scenario, "preemptions": {str(k): v for k, v in sorted(pre.items())}}
+        places = {}
+        for m in markers:
+            nq = w.scalar("SELECT COUNT(*) FROM queue_messages WHERE payload LIKE ?", (f'%"{m}"%',))
+            nd = w.scalar("SELECT COUNT(*) FROM queue_messages_dlq WHERE payload LIKE ?", (f'%"{m}"%',))
+            places[m] = (nq, nd)
+            if nq + nd != 1:
+                c.violation(f"conservation|concurrent-movers|{scenario}", case, f"{m} is in the queue {nq}x and the DLQ {nd}x")
+        if "sweep" in scenario and (places["OLD0"], places["OLD1"]) != ((0, 1), (0, 1)):
+            c.violation(f"sweep-lost-or-kept|concurrent-movers|{scenario}", case, f"exhausted messages after the sweeps: {places}")
+        if places["LIVE"] != (1, 0):
+            c.violation(f"live-message-moved|concurrent-movers|{scenario}", case, f"a message below its limit: {places['LIVE']}")
+        if "replay" in scenario:
+            if places["DEAD"] != (1, 0):
+                c.violation(f"replay-lost-or-duplicated|concurrent-movers|{scenario}", case, f"replayed entry: queue/DLQ {places['DEAD']}")
+            oks = [v for v in holder["ret"].values() if v is True]
+            if scenario == "two-replays" and len(oks) != 1:
+                c.violation(f"replay-reported-twice|concurrent-movers|{scenario}", case, f"replay_dlq returned {holder['ret']}")
+        if s.errors:
+            c.violation(f"mover-raised|concurrent-movers|{scenario}", case, f"{s.errors[:2]}")
+        c.case(("c08m", scenario, sorted(pre.items())), bool(pre) and s.switches > 0, ["concurrent-movers", f"movers:{scenario}"],
+               sample={"scenario": scenario, "preemptions": case["preemptions"], "places": {k: list(v) for k, v in places.items()}} if pre and len(c.samples) < 1 else None)
+
+    n = explore(mk, lambda w: list(programs), judge, max_preemptions=0 if only is not None else P, roots=[only] if only is not None else None)
+    c.extra[f"schedules:movers:{scenario}"] = n
     return c.export()
 
 
@@ -386,7 +452,10 @@ def run(c: Campaign, jobs: int) -> None:
     args.append((shard_fixed, (c.prop, c.tier, c.seed)))
     for nmsg, nw, sw, P in ((1, 2, False, 3), (2, 2, False, 3), (1, 3, False, 2), (2, 2, True, 2), (2, 3, True, 1)):
         args.append((shard_pollers, (c.prop, c.tier, c.seed, nmsg, nw, sw, P if quick else P + 1)))
+    for scenario, P in (("two-sweeps", 3), ("sweep+move", 3), ("two-replays", 3), ("replay+sweep", 3), ("three-sweeps", 2)):
+        args.append((shard_movers, (c.prop, c.tier, c.seed, scenario, P if quick else P + 1)))
     run_shards(c, _dispatch, args, jobs)
+    c.exhaustive_parts.append("concurrent movers: two / three DLQ sweeps, sweep beside move_to_dlq, two replays of one DLQ entry, replay beside a sweep - all schedules within the pre-emption bound")
     c.exhaustive_parts.append("concurrent pollers: 5 configurations (1-2 messages x 2-3 workers, with/without the DLQ sweep and a lock heartbeat), all schedules within the pre-emption bound")
     c.rule = ("case = one history of <= 40 (thorough 80) queue operations by two workers, judged against the reference queue model after every operation "
               "and, for conservation, after every commit inside every operation. Non-trivial = the history contains a lock lapse followed by a re-poll, "
@@ -397,12 +466,20 @@ def run(c: Campaign, jobs: int) -> None:
         "sequential histories use two SqliteQueue instances on one connection; concurrent pollers (2-3 workers, optional DLQ sweep / heartbeat) run under the interleaving engine with a bounded number of pre-emptions",
         "a stale holder's ack deletes the row another worker now holds: at-least-once, recorded as acknowledged (not loss)",
     ]
-    for cls in ("lapse_repoll", "dlq_moves", "contended_polls", "replays", "fixed-history"):
+    for cls in ("lapse_repoll", "dlq_moves", "contended_polls", "replays", "fixed-history", "concurrent-movers"):
         if c.classes.get(cls, 0) == 0:
             c.harness_error(f"generator starvation: class {cls} never produced")
 
 
 def regress(c: Campaign, rec: dict[str, Any]) -> None:
+    case = rec["case"]
+    if case.get("kind") in ("movers", "pollers"):
+        only = {int(k): v for k, v in case["preemptions"].items()}
+        if case["kind"] == "movers":
+            c.merge(shard_movers(c.prop, c.tier, c.seed, case["scenario"], 0, only))
+        else:
+            c.merge(shard_pollers(c.prop, c.tier, c.seed, case["messages"], case["workers"], case["sweep"], 0, only))
+        return
     ops = [tuple(o) for o in rec["case"]["ops"]]
     run_history(c, ops, rec["case"])
 
